@@ -1314,3 +1314,62 @@ func JoinIDs(ids []int32, timeout time.Duration) bool {
 		Sleep(time.Millisecond)
 	}
 }
+
+// ---------------------------------------------------------------------------
+// probes: named counters fed by instrumentation inserted into the system under
+// test (see simgen/probes.go). They do not yield and do not perturb schedules.
+
+var (
+	probeMu  sync.Mutex
+	probeCur map[string]int64
+	probeMax map[string]int64
+)
+
+// ProbeReset clears all probe counters (called at the start of a run).
+func ProbeReset() {
+	probeMu.Lock()
+	probeCur = map[string]int64{}
+	probeMax = map[string]int64{}
+	probeMu.Unlock()
+}
+
+// ProbeAdd adds d to the named counter and tracks its maximum.
+func ProbeAdd(name string, d int64) {
+	probeMu.Lock()
+	if probeCur == nil {
+		probeCur = map[string]int64{}
+		probeMax = map[string]int64{}
+	}
+	probeCur[name] += d
+	if probeCur[name] > probeMax[name] {
+		probeMax[name] = probeCur[name]
+	}
+	probeMu.Unlock()
+}
+
+// ProbeMax returns the maximum the named counter reached since ProbeReset.
+func ProbeMax(name string) int64 {
+	probeMu.Lock()
+	defer probeMu.Unlock()
+	return probeMax[name]
+}
+
+// ProbeNames lists the counters that were touched.
+func ProbeNames() []string {
+	probeMu.Lock()
+	defer probeMu.Unlock()
+	var out []string
+	for k := range probeMax {
+		out = append(out, k)
+	}
+	return out
+}
+
+// SelectOrder returns which of n polling orders a rewritten select uses. It is
+// a scheduling point; outside simulated runs the source order (0) is used.
+func SelectOrder(n int) int {
+	if n <= 1 || Mode() != 1 {
+		return 0
+	}
+	return int(Rand(0x5e1ec7) % uint64(n))
+}
